@@ -536,6 +536,11 @@ def rerun_shard_fails(binary, pid, seed, shard, tcfg, known, kind, times=2):
                 v = json.load(f).get("violation")
         except Exception:
             v = None
+        for leftover in (r["out"], r["out"] + ".current"):
+            try:
+                os.remove(leftover)
+            except OSError:
+                pass
         if not v or v.get("kind") != kind:
             return False
     return True
